@@ -79,6 +79,16 @@ def make_struct(term, ns, kwargs):
     return ns[term.name](**kwargs)
 
 
+def _literal_faithful(x):
+    import ast
+
+    try:
+        y = ast.literal_eval(repr(x))
+    except Exception:  # noqa: BLE001
+        return False
+    return same(y, x)
+
+
 def composite_cases(term, ns, mus):
     """yield (label, input factory, reference thunk) for the unmarshal direction; mus = member unmarshallers by position"""
     k = term.kind
@@ -92,6 +102,10 @@ def composite_cases(term, ns, mus):
     elif k == "dict":
         ki = member_inputs(term.args[0], ns, mus[0])
         vi = member_inputs(term.args[1], ns, mus[1])
+        # keys of a foreign primitive class that the key routine converts (1 -> "1" under a str key type): visible in every source shape
+        for kl, kv in (("int-key", 1), ("float-key", 2.5), ("bool-key", True)):
+            if call(mus[0], kv).ok and not any(type(f()) is type(kv) for _, f in ki):
+                ki = ki + [(kl, (lambda kv=kv: kv))]
         yield "empty", (lambda: {}), (lambda: {})
         for kl, kf in ki:
             for vl, vf in vi[:3] + vi[-2:]:
@@ -101,6 +115,11 @@ def composite_cases(term, ns, mus):
                     except TypeError:
                         return [(kf(), vf())]
                 yield f"{{{kl}:{vl}}}", mk, (lambda kf=kf, vf=vf: {mus[0](kf()): mus[1](vf())})
+                # the same mapping as Python-literal TEXT (and as JSON pairs): decoded keys need not be text, they are members like any other
+                d0 = mk()
+                if type(d0) is dict and _literal_faithful(d0):
+                    yield f"text{{{kl}:{vl}}}", (lambda d0=d0: repr(d0)), (lambda kf=kf, vf=vf: {mus[0](kf()): mus[1](vf())})
+                    yield f"bytes{{{kl}:{vl}}}", (lambda d0=d0: repr(d0).encode()), (lambda kf=kf, vf=vf: {mus[0](kf()): mus[1](vf())})
     elif k == "ftuple":
         per = [member_inputs(a, ns, mus[i]) for i, a in enumerate(term.args)]
         first = [p[0] if p else None for p in per]
